@@ -1,3 +1,6 @@
 import BalmProofs.Props.C05
 #print axioms Balm.Skip.skip_completion
 #print axioms Balm.Skip.own_iff_leaf
+#print axioms Balm.Impl.mem_reachSet
+#print axioms Balm.Impl.attractors_sound
+#print axioms Balm.Impl.attractors_complete
